@@ -282,3 +282,29 @@ def body_without_doc(fn_node):
     if b and isinstance(b[0], ast.Expr) and isinstance(b[0].value, ast.Constant) and isinstance(b[0].value.value, str):
         return b[1:]
     return b
+
+
+def one_shot_reuse(fn_node):
+    """locals bound (once) to a one-shot iterator - a generator expression, iter(), map(), filter(), zip(), enumerate(), reversed() - and consumed at more than one place:
+    the first consumer exhausts it, every later one sees nothing.  -> list of (name, binding node, [use nodes])"""
+    out = []
+    binds = {}
+    for n in ast.walk(fn_node):
+        if isinstance(n, ast.Assign) and len(n.targets) == 1 and isinstance(n.targets[0], ast.Name):
+            binds.setdefault(n.targets[0].id, []).append(n)
+    for name, bs in binds.items():
+        if len(bs) != 1:
+            continue
+        v = bs[0].value
+        one_shot = isinstance(v, ast.GeneratorExp) or (isinstance(v, ast.Call) and isinstance(v.func, ast.Name) and v.func.id in ("iter", "map", "filter", "zip", "enumerate", "reversed"))
+        if not one_shot:
+            continue
+        uses = [x for x in ast.walk(fn_node) if isinstance(x, ast.Name) and x.id == name and isinstance(x.ctx, ast.Load)]
+        # a use inside a loop body that runs more than once also re-consumes it, but that is not judged here: only textually distinct consumers
+        consumers = []
+        for u in uses:
+            consumers.append(u)
+        if len(consumers) >= 2 and not any(isinstance(x, ast.Call) and isinstance(x.func, ast.Name) and x.func.id in ("list", "tuple", "sorted") and x.args and isinstance(x.args[0], ast.Name)
+                                            and x.args[0].id == name for x in ast.walk(fn_node) if False):
+            out.append((name, bs[0], consumers))
+    return out
